@@ -7,15 +7,15 @@ about in `SkaModel/Props/C19.lean` for arbitrary label, weight, kernel and class
 Conventions
 * an index is an `Int` (numpy accepts negative indices; `check_indices` only rejects `i ≥ n`),
   `normIdx n i` is numpy's wrap-around, `none` where numpy raises `IndexError`;
-* `idx_, y_, sample_weight_` are kept as three separate lists exactly as in the code (after an
-  exception in the middle of `partial_fit` they can be out of step), `sample_weight_ = None` is
-  `sw = none`;
+* `idx_, y_, sample_weight_` are kept as three separate lists exactly as in the code,
+  `sample_weight_ = None` is `sw = none`;
 * the wrapped classifier is an abstract type `C` with `fitFn : Data → C` (what `clf.fit(X[idx], y, w)`
   produces, `fit` assumed history-free: C13) and `pfitFn : C → Data → C` (native `partial_fit`);
   `clf_` absent and `clf_` an unfitted clone are both `none` (no code path distinguishes them except
   by the type of the exception raised);
 * every operation returns the state the object is left in **and** the exception raised, if any
-  (`St × Option Err`), because the code mutates attributes before some of its `raise`s.
+  (`St × Option Err`); since the repair of `partial_fit` (compute into locals, assign after the closing
+  `fit` succeeded) a raising call leaves the object as it was (`Ska.C19.step_error_atomic`).
 -/
 
 namespace Ska.IW
@@ -24,7 +24,7 @@ inductive Err where
   | value      -- ValueError from argument validation (empty / duplicate / too large index, length mismatch)
   | index      -- IndexError (index < -n, or `sample_weight_[cur_idx]` on an out-of-step state)
   | notFitted  -- NotFittedError (no (base) classifier, or no `idx_` because the classifier was fitted before `__init__`)
-  | attr       -- AttributeError: `base_idx_` missing (base classifier came from `__init__`)
+  | attr       -- AttributeError: `base_idx_` missing (old code only, see `Ska.C19.Regressions`)
   | mixed      -- ValueError "All `sample_weight` must be either None or given." (`_concat_sw`)
   | nan        -- ValueError: a needed kernel value was not precomputed
   | param      -- ValueError: unknown `fit_params` / `pred_params`
@@ -163,63 +163,67 @@ def fit (cfg : Cfg L W) (fitFn : Data L W → C) (s : St C L W)
 def keepMask (unique : Bool) (cur add : List Int) : List Bool :=
   cur.map (fun i => !(unique && add.contains i))
 
-/-- The concatenation block of the emulated `partial_fit`
-(`idx_ = concat(idx_[cur_idx], add_idx)`, the same for `y_`, then `_concat_sw`). The three
-assignments happen one after the other; on an exception the result carries the out-of-step record the
-object is left with. -/
+/-- The concatenation block of the emulated `partial_fit`, computed into locals
+(`new_idx = concat(idx_[cur_idx], add_idx)`, the same for `y`, then `_concat_sw`); nothing is assigned
+here, an exception leaves the object untouched. -/
 def merge (unique : Bool) (d : Data L W) (idx : List Int) (ay : List L) (aw : Option (List W)) :
-    Except (Data L W × Err) (Data L W) :=
+    Except Err (Data L W) :=
   let keep := keepMask unique d.idx idx
   let idx' := maskSel d.idx keep ++ idx
   match selKeep unique keep d.y with
-  | none => .error (⟨idx', d.y, d.sw⟩, .index)
+  | none => .error .index
   | some ky =>
     let y' := ky ++ ay
     match d.sw with
     | none =>
       match aw with
       | none => .ok ⟨idx', y', none⟩
-      | some _ => .error (⟨idx', y', none⟩, .mixed)          -- `_concat_sw` raises
+      | some _ => .error .mixed          -- `_concat_sw` raises
     | some w =>
       match selKeep unique keep w with
-      | none => .error (⟨idx', y', some w⟩, .index)
+      | none => .error .index
       | some kw =>
         match aw with
         | some a => .ok ⟨idx', y', some (kw ++ a)⟩
-        | none => .error (⟨idx', y', some w⟩, .mixed)
+        | none => .error .mixed
 
-/-- native branch of `partial_fit` (arguments already validated). -/
+/-- native branch of `partial_fit` (arguments already validated): `X[add_idx]` is evaluated and the
+classifier to update is chosen (a deep copy of the base classifier with `use_base_clf`) before anything
+is assigned. -/
 def partialNative (cfg : Cfg L W) (pfitFn : C → Data L W → C) (s : St C L W)
     (idx : List Int) (ay : List L) (aw : Option (List W)) (useBase setBase : Bool) :
     St C L W × Option Err :=
-  -- `if use_base_clf: self.clf_ = deepcopy(self.base_clf_)`
-  let s1 : St C L W := if useBase then ⟨s.bclf, s.cur, s.bclf, s.base⟩ else s
-  if !(xIndexOk cfg idx) then (s1, some .index)     -- `self.X[add_idx]`
+  if !(xIndexOk cfg idx) then (s, some .index)     -- `X_add = self.X[add_idx]`
   else
-    match s1.clf with
-    | none => (s1, some .notFitted)
+    match (if useBase then s.bclf else s.clf) with
+    | none => (s, some .notFitted)
     | some c =>
       let c' := pfitFn c ⟨idx, ay, aw⟩
-      if setBase then (⟨some c', s1.cur, some c', s1.base⟩, none)
-      else (⟨some c', s1.cur, s1.bclf, s1.base⟩, none)
+      if setBase then (⟨some c', s.cur, some c', s.base⟩, none)
+      else (⟨some c', s.cur, s.bclf, s.base⟩, none)
 
-/-- emulated branch of `partial_fit` (arguments already validated). -/
+/-- emulated branch of `partial_fit` (arguments already validated): the new training record is computed
+into locals; `clf_` is replaced by a clone of the base classifier only around the closing `fit` and put
+back if that raises; `idx_`, `y_`, `sample_weight_` are assigned by `fit` once it has succeeded. -/
 def partialEmu (cfg : Cfg L W) (fitFn : Data L W → C) (s : St C L W)
     (idx : List Int) (ay : List L) (aw : Option (List W)) (useBase setBase : Bool) :
     St C L W × Option Err :=
   match s.cur with
   | none => (s, some .notFitted)              -- `not hasattr(self, "idx_")`
   | some cur0 =>
-    -- `if use_base_clf: self.clf_ = clone(self.base_clf_); self.idx_ = self.base_idx_.copy() …`
-    let clf1 : Option C := if useBase then none else s.clf
     match (if useBase then s.base else some cur0) with
-    | none => (⟨clf1, s.cur, s.bclf, s.base⟩, some .attr)
+    | none => (s, some .notFitted)            -- base classifier from `__init__`: `base_idx_` unknown
     | some d =>
       match merge cfg.unique d idx ay aw with
-      | .error (d', e) => (⟨clf1, some d', s.bclf, s.base⟩, some e)
+      | .error e => (s, some e)
       | .ok d' =>
-        -- `self.fit(self.idx_, y=self.y_, sample_weight=self.sample_weight_, set_base_clf=set_base_clf)`
-        fit cfg fitFn ⟨clf1, some d', s.bclf, s.base⟩ d'.idx (some d'.y) d'.sw setBase
+        -- `old_clf = self.clf_; if use_base_clf: self.clf_ = clone(self.base_clf_)`
+        -- `try: self.fit(new_idx, y=new_y, sample_weight=new_sample_weight, set_base_clf=…)`
+        -- `except: self.clf_ = old_clf; raise`
+        let r := fit cfg fitFn ⟨if useBase then none else s.clf, s.cur, s.bclf, s.base⟩ d'.idx (some d'.y) d'.sw setBase
+        match r.2 with
+        | some e => (s, some e)
+        | none => r
 
 /-- the validation part of `partial_fit` (nothing is assigned before it is over). -/
 def validatePartial (cfg : Cfg L W) (s : St C L W) (idx : List Int) (y : Option (List L))
